@@ -58,6 +58,8 @@ func (t *Translator) convertToolChoice(toolChoice interface{}) (interface{}, err
 		case toolChoiceAny:
 			// Semantic mapping: Anthropic "any" -> OpenAI "required"
 			return openAIToolChoiceRequired, nil
+		case toolChoiceNone:
+			return openAIToolChoiceNone, nil
 		case toolChoiceTool:
 			// Force specific tool selection
 			toolName, ok := choiceMap["name"].(string)
